@@ -307,6 +307,38 @@ Proof.
     + apply pixel_conn_all. exact Hp.
 Qed.
 
+
+Lemma pixel_edge p q : adj4 Hz Wz p q -> getz lab p <> getz lab q -> In (getz lab p, getz lab q) e.
+Proof.
+  intros A N. unfold e. apply sym_edges_In.
+  assert (G : forall a b, In (a, b) (raw_pairs H W lab) -> a <> b -> In (a, b) raw).
+  { intros a b Hin Ne. unfold raw. apply filter_In. split; [exact Hin|]. cbn [fst snd]. lia. }
+  destruct A as [r [c [[Hr [Hc [[-> ->]|[-> ->]]]]|[Hr [Hc [[-> ->]|[-> ->]]]]]]].
+  - left. apply G; [|exact N]. apply raw_pairs_In. left. exists r, c. auto.
+  - right. apply G; [|auto]. apply raw_pairs_In. left. exists r, c. auto.
+  - left. apply G; [|exact N]. apply raw_pairs_In. right. exists r, c. auto.
+  - right. apply G; [|auto]. apply raw_pairs_In. right. exists r, c. auto.
+Qed.
+
+Lemma edge_ne a b : In (a, b) e -> a <> b.
+Proof.
+  intros Hin. unfold e in Hin. apply sym_edges_In in Hin. unfold raw in Hin.
+  destruct Hin as [Hin|Hin]; apply filter_In in Hin as [_ Ne]; cbn [fst snd] in Ne; lia.
+Qed.
+
+Lemma edge_adj4 a b : In (a, b) e -> exists p q, adj4 Hz Wz p q /\ getz lab p = a /\ getz lab q = b.
+Proof.
+  intros Hin. unfold e in Hin. apply sym_edges_In in Hin.
+  assert (G : forall a b, In (a, b) raw -> exists p q, adj4 Hz Wz p q /\ getz lab p = a /\ getz lab q = b).
+  { intros x y Hxy. unfold raw in Hxy. apply filter_In in Hxy as [Hxy _].
+    apply raw_pairs_In in Hxy as [[r [c [Hr [Hc [-> ->]]]]]|[r [c [Hr [Hc [-> ->]]]]]].
+    - exists (r * Wz + c), ((r + 1) * Wz + c). split; [exists r, c; left; auto|auto].
+    - exists (r * Wz + c), (r * Wz + c + 1). split; [exists r, c; right; auto|auto]. }
+  destruct Hin as [Hin|Hin]; [apply G; exact Hin|].
+  destruct (G b a Hin) as [p [q [A [E1 E2]]]]. exists q, p. split; [|auto].
+  destruct A as [r [c [[Hr [Hc [X|X]]]|[Hr [Hc [X|X]]]]]]; exists r, c; [left|left|right|right]; repeat split; auto; try lia.
+Qed.
+
 (* ---------------------------------------------------------------- binary images *)
 Lemma unch_pos v : Unch e todo0 lcount v -> 0 < v.
 Proof.
@@ -375,6 +407,14 @@ Qed.
 
 Lemma on_border_in_range q : on_border Hz Wz q -> 0 <= q < Z.of_nat npix.
 Proof. intros [r [c [-> [Hr [Hc _]]]]]. apply pix_in_range; auto. Qed.
+
+Lemma unch_has_pixel v : Unch e todo0 lcount v -> exists p, 0 <= p < Z.of_nat npix /\ getz lab p = v.
+Proof.
+  intros Uv. destruct Uv as [v Hb|i j _ _ Hj _|i1 i2 j _ _ _ _ _ Hj _].
+  - destruct (border_region_pixel v Hb) as [q [Bq Eq]]. exists q. split; [apply on_border_in_range; exact Bq|auto].
+  - destruct (edge_adj4 i j Hj) as [p [q [A [_ E]]]]. exists q. split; [apply (adj4_in_range p q A)|exact E].
+  - destruct (edge_adj4 i1 j Hj) as [p [q [A [_ E]]]]. exists q. split; [apply (adj4_in_range p q A)|exact E].
+Qed.
 
 Lemma bgpath_same_region p q : getz pix p = 0 -> 0 <= p < Z.of_nat npix -> BgPath rows p q ->
   getz pix q = 0 /\ 0 <= q < Z.of_nat npix /\ getz lab q = getz lab p.
